@@ -705,6 +705,7 @@ impl<'a> Checker<'a>
     {
         self.stats.guaranteed_gc += 1;
         self.gc_guaranteed_this_step = true;
+        for k in std::mem::take(&mut self.sys.doomed) { if let Some(s) = self.sys.spawned[k].as_mut() { s.1 = false; } }
         let doomed = std::mem::take(&mut self.doomed_ents);
         let before: Vec<bool> = self.insts.iter().map(|t| t.doomed).collect();
         for e in doomed { self.despawn_rec(e); }
@@ -1776,6 +1777,34 @@ impl<'a> Checker<'a>
             WOp::Syscall(kind, key, input) => self.sys_call(*kind, *key, *input, false, u)?,
             WOp::SpawnSys(k, key) => { let k = *k as usize % 4; if self.sys.spawned[k].is_none() { self.sys.spawned[k] = Some((*key % crate::sysfam::NKEYS, true)); } }
             WOp::KillSys(k) => { if let Some(s) = self.sys.spawned[*k as usize % 4].as_mut() { s.1 = false; } }
+            WOp::RevokeNamed(n, key) =>
+            {
+                let state = crate::sysfam::state_id(SysKind::Named(*n), *key % crate::sysfam::NKEYS, false);
+                if self.sys.running.contains(&state) { return bail("a named system was revoked while it runs (not judged)"); }
+                self.sys.named.remove(&state);
+                self.sys.counts.remove(&state);
+            }
+            WOp::SpawnSysRc(k, key) =>
+            {
+                let k = *k as usize % 4;
+                if self.sys.spawned[k].is_none() { self.sys.spawned[k] = Some((*key % crate::sysfam::NKEYS, true)); self.sys.rc_held[k] = true; }
+            }
+            WOp::DropSysRc(k) =>
+            {
+                let k = *k as usize % 4;
+                if self.sys.rc_held[k]
+                {
+                    self.sys.rc_held[k] = false;
+                    if !self.in_direct_step { return bail("signal of a ref-counted spawned system dropped inside a batch or tree (placement of in-tree collections is unspecified)"); }
+                    self.sys.doomed.push(k);
+                }
+            }
+            WOp::InsertSys(k, s, key) =>
+            {
+                let k = *k as usize % 4;
+                let e = slot(self, *s);
+                if self.sys.spawned[k].is_none() && self.ents[e].alive && !self.sys.on_ent.iter().any(|x| *x == Some(e)) { self.sys.spawned[k] = Some((*key % crate::sysfam::NKEYS, true)); self.sys.on_ent[k] = Some(e); }
+            }
         }
         Ok(())
     }
@@ -1848,7 +1877,7 @@ impl<'a> Checker<'a>
         {
             match self.peek()? { Some(Ev::StepBegin(x)) if *x == i => self.advance()?, _ => { self.unexpected("step begin")?; } }
             self.gc_guaranteed_this_step = false;
-            if !self.doomed_ents.is_empty() && !matches!(step, Step::Direct(WOp::Gc) | Step::Direct(WOp::SigClone(_)) | Step::Direct(WOp::SigDrop(_)) | Step::Direct(WOp::SigPrepare(..)) | Step::Direct(WOp::Reparent(..)) | Step::Update)
+            if (!self.doomed_ents.is_empty() || !self.sys.doomed.is_empty()) && !matches!(step, Step::Direct(WOp::Gc) | Step::Direct(WOp::SigClone(_)) | Step::Direct(WOp::SigDrop(_)) | Step::Direct(WOp::SigPrepare(..)) | Step::Direct(WOp::Reparent(..)) | Step::Update)
             {
                 return Err(Stop::Bail(Bail("an entity whose last signal clone was dropped is not collected before other work (placement of in-tree collections is unspecified)".into())));
             }
@@ -2027,7 +2056,7 @@ impl<'a> Checker<'a>
         match kind
         {
             SysKind::Plain | SysKind::Validated => {}
-            SysKind::Once => { persist = false; }
+            SysKind::Once | SysKind::OnceValidated => { persist = false; }
             SysKind::Named(_) => { if cmd { return Ok(()); } self.sys.named.insert(state); }
             SysKind::NamedDirect(_) =>
             {
@@ -2054,7 +2083,7 @@ impl<'a> Checker<'a>
                 let type_ok = if cmd { k >= 2 } else { k < 2 };
                 match self.sys.spawned[k]
                 {
-                    Some((fk, alive)) if alive && type_ok && !self.sys.running.contains(&state) => { fkey = fk; }
+                    Some((fk, alive)) if alive && type_ok && !self.sys.running.contains(&state) && self.sys.on_ent[k].map(|e| self.ents[e].alive).unwrap_or(true) => { fkey = fk; }
                     _ => { runs = false; }
                 }
             }
@@ -2148,6 +2177,10 @@ pub struct SysModel
     spawned: [Option<(u8, bool)>; 4],
     call_seq: u32,
     calls_per_key: [u32; 3],
+    rc_held: [bool; 4],
+    /// spawned-system slots whose signal was dropped: gone after the next guaranteed collection
+    doomed: Vec<usize>,
+    on_ent: [Option<usize>; 4],
 }
 impl SysModel
 {
